@@ -229,6 +229,38 @@ pub fn compare_stream(data: &[u8], st: Option<&mut Stats>) -> Result<(), (String
     if real.ev != r.ev {
         return Err(("c02:events".into(), first_diff(&real.ev, &r.ev)));
     }
+    clone_points(data)
+}
+
+/// A clone of the parser taken at any point of the stream continues exactly like the original (every position for
+/// short inputs, 12 spread positions for long ones; the parser's equality is checked too).
+fn clone_points(data: &[u8]) -> Result<(), (String, String)> {
+    let n = data.len();
+    let pick = |k: usize| n <= 48 || k % (n / 12).max(1) == (n / 24).max(1) % (n / 12).max(1);
+    let mut p = anstyle_parse::Parser::<anstyle_parse::DefaultCharAccumulator>::new();
+    let mut rec = Recorder::default();
+    let mut clones = vec![];
+    for (k, &b) in data.iter().enumerate() {
+        if k > 0 && pick(k) {
+            clones.push((k, rec.ev.len(), p.clone()));
+        }
+        p.advance(&mut rec, b);
+    }
+    for (k, mark, mut c) in clones {
+        let mut rc = Recorder::default();
+        for &b in &data[k..] {
+            c.advance(&mut rc, b);
+        }
+        if let Some(pr) = rc.params_problem {
+            return Err(("c02:params-iterator".into(), pr));
+        }
+        if rc.ev[..] != rec.ev[mark..] {
+            return Err(("c02:clone".into(), format!("a clone of the parser taken before byte {k} continues differently: {}", first_diff(&rc.ev, &rec.ev[mark..]))));
+        }
+        if c != p {
+            return Err(("c02:clone".into(), format!("a clone of the parser taken before byte {k} and fed the same bytes does not compare equal to the original")));
+        }
+    }
     Ok(())
 }
 
